@@ -150,6 +150,7 @@ def parse_h1_case(lines):
     while i < len(lines):
         l = lines[i]
         if l.startswith("GEN "): c["gen"] = l[4:]
+        elif l.startswith("NULLABLE ") or l.startswith("FIRST "): c.setdefault("first", []).append(l)
         elif re.match(r"^S\d+:", l): c["states"].append(l.split(":", 1)[1].split())
         elif re.match(r"^RC\d+:", l): c.setdefault("cellrows", []).append(l.split(":", 1)[1].split())
         elif re.match(r"^R\d+:", l): c["rows"].append([tuple(int(x) for x in e.split(",")) for e in l.split(":", 1)[1].split()])
